@@ -31,11 +31,11 @@ def op_text(j, faults, lib_from=None, libv_from=None):
     if libv_from is not None:
         lines.append("query UseLibV%d { ...LibV%d }" % (libv_from, libv_from))
     if "libcheck" in faults:
-        lines.append("  fragment Lib%d on Query { a nopeLib%d }" % (j, j))
+        lines.append("  fragment Lib%d on Query { a nopeLib }" % j)       # same message and position in every such file
     if "libvar" in faults:
         lines.append("  fragment LibV%d on Query { a b(x: $undefinedHere%d) }" % (j, j))
     if "check" in faults:
-        lines.append("  query Bad%d { a nope%d }" % (j, j))
+        lines.append("  query Bad%d { a nope }" % j)                      # same message and position in every such file
     if "parse" in faults:
         lines.append(" query {")
     return "\n".join(lines) + "\n"
